@@ -1,12 +1,20 @@
 CHECK = {
     "level": "exploration",
-    "assumptions": ["goroutines the request handler spawns itself and the expiration workers are not gated (they run freely, as in production)"],
+    "assumptions": ["goroutines the request handler spawns itself and the expiration workers are not gated (they run freely, as in production)",
+                    "histories unit: sequential requests only; an injected storage fault is a single failed read seen by a goroutine other than the requester's"],
     "units": [
-        unit("uselimit", "vault", ["vault/c19_test.go"], "^TestVerif_C19_",
-             quick={"checks": 250, "shards": 1, "cap": 900},
+        unit("uselimit", "vault", ["vault/c19_test.go"], "^TestVerif_C19_UseLimit$",
+             quick={"checks": 180, "shards": 1, "cap": 900},
              thorough={"checks": 1500, "shards": 16, "cap": 3000},
              # lock hand-over between two blocked request goroutines is decided by the Go runtime, so a failing schedule
              # need not fail again when rapid re-runs it; the verdict is a fact about the history that did happen
+             flaky_is_violation=True),
+        # sequential histories: entity-bound login tokens whose entity is disabled / enabled / deleted between uses, and a
+        # single failing read met by the background revocation of the spent token (runs beside the schedule unit)
+        unit("histories", "vault", ["vault/c19_test.go", "vault/c19hist_test.go"], "^TestVerif_C19_Histories$",
+             quick={"checks": 200, "shards": 1, "cap": 900},
+             thorough={"checks": 1500, "shards": 16, "cap": 3000},
+             # which read of the background revocation is the j-th depends on the expiration workers' timing
              flaky_is_violation=True),
     ],
 }
